@@ -182,6 +182,17 @@ def _size(a):
     return to_z3(a.shape[0]) if a.ndim == 1 else to_z3(a.shape[0]) * to_z3(a.shape[1])
 
 
+def bll_term(forecast, catalog, k):
+    lam = to_real(_flat(forecast, k))
+    act = to_real(_flat(catalog, k)) != 0
+    return z3.If(act, LOG(1 - EXP(-lam)), -lam)
+
+
+def bll_sum(forecast, catalog):
+    """sum over bins with an event of ln(1 - exp(-rate)) plus sum over bins without of -rate"""
+    return rsum(lambda k: bll_term(forecast, catalog, k), _size(forecast))
+
+
 class _BinaryLL:
     qualname = 'csep.core.binomial_evaluations.binary_joint_log_likelihood_ndarray'
     oracle = 'binary_joint_ll'
@@ -208,15 +219,10 @@ class _BinaryLL:
     @classmethod
     def ensures(cls, c, r, forecast, catalog):
         N = _size(forecast)
-
-        def term(k):
-            lam = to_real(_flat(forecast, k))
-            act = to_real(_flat(catalog, k)) != 0
-            return z3.If(act, LOG(1 - EXP(-lam)), -lam)
-        h = pointwise_sum_hint(c, 'summands agree bin by bin', to_real(r), term, N)
+        h = pointwise_sum_hint(c, 'summands agree bin by bin', to_real(r), lambda k: bll_term(forecast, catalog, k), N)
         if h:
             yield h
-        yield 'value == sum_active ln(1-exp(-rate)) + sum_inactive (-rate)', to_real(r) == rsum(term, N)
+        yield 'value == sum_active ln(1-exp(-rate)) + sum_inactive (-rate)', to_real(r) == bll_sum(forecast, catalog)
 
     @classmethod
     def result(cls, c, forecast, catalog):
@@ -230,6 +236,9 @@ def _rates_counts_witness(a, b):
     return staticmethod(w)
 
 
+_BinaryLL.accepts = classmethod(lambda cls, c, forecast, catalog: isinstance(forecast, Arr) and isinstance(catalog, Arr)
+                                and not hasattr(forecast, 'mask') and not hasattr(catalog, 'mask')
+                                and (forecast.ndim, catalog.ndim) in ((1, 1), (2, 2), (2, 1)))
 _BinaryLL.oracle = 'binary_jll_ndarray'
 _BinaryLL.witness = _rates_counts_witness('forecast', 'catalog')
 
@@ -244,6 +253,30 @@ class BinaryLL1(_BinaryLL):
 class BinaryLL2(_BinaryLL):
     case = '2-d (space-magnitude) arrays, positive rates'
     rank = 2
+
+
+@contract
+class BinaryLL21(_BinaryLL):
+    """the shape the binary consistency test uses for simulated catalogs: 2-d rates against a flat catalog of the same size"""
+    case = '2-d rates, flat (1-d) catalog of the same size, positive rates'
+    rank = (2, 1)
+
+    @classmethod
+    def params(cls, c):
+        n0, n1 = c.int('n0'), c.int('n1')
+        c.ctx.assume(z3.And(n0 >= 0, n1 >= 1))
+        F = c.arr2_flat('forecast', 'float64', (n0, n1))
+        return dict(forecast=F, catalog=c.arr('catalog', 'float64', n=F.flat_backing.n))
+
+
+def brier_sum(forecast, observations):
+    """sum over all bins of (1 - exp(-rate) - [bin has an event])^2 (the Brier score is -2/N times this)"""
+    def term(k):
+        lam = to_real(_flat(forecast, k))
+        act = z3.If(to_real(_flat(observations, k)) > 0, z3.RealVal(1), z3.RealVal(0))
+        d = 1 - EXP(-lam) - act
+        return d * d
+    return rsum(term, _size(forecast))
 
 
 class _Brier:
@@ -265,13 +298,7 @@ class _Brier:
     @classmethod
     def ensures(cls, c, r, forecast, observations):
         N = _size(forecast)
-
-        def term(k):
-            lam = to_real(_flat(forecast, k))
-            act = z3.If(to_real(_flat(observations, k)) > 0, z3.RealVal(1), z3.RealVal(0))
-            d = 1 - EXP(-lam) - act
-            return d * d
-        yield 'value == -2/N * sum (1 - exp(-rate) - [active])^2', to_real(r) * z3.ToReal(N) == -2 * rsum(term, N)
+        yield 'value == -2/N * sum (1 - exp(-rate) - [active])^2', to_real(r) * z3.ToReal(N) == -2 * brier_sum(forecast, observations)
 
     @classmethod
     def result(cls, c, forecast, observations):
@@ -282,6 +309,17 @@ _Brier.oracle = 'brier_score_ndarray'
 _Brier.witness = _rates_counts_witness('forecast', 'observations')
 
 
+def _brier_accepts(cls):
+    def accepts(c, forecast, observations):
+        if not (isinstance(forecast, Arr) and isinstance(observations, Arr)):
+            return False
+        if hasattr(forecast, 'mask') or hasattr(observations, 'mask'):
+            return False        # masked arrays: reductions skip the masked entries - not what this contract describes
+        want = cls.rank if isinstance(cls.rank, tuple) else (cls.rank, cls.rank)
+        return (forecast.ndim, observations.ndim) == want
+    return accepts
+
+
 @contract
 class Brier2(_Brier):
     case = '2-d (space-magnitude) arrays'
@@ -289,9 +327,31 @@ class Brier2(_Brier):
 
 
 @contract
+class Brier21(_Brier):
+    """the shape the Brier consistency test uses for simulated catalogs: 2-d rates against a flat catalog of the same size"""
+    case = '2-d rates, flat (1-d) observations of the same size'
+    rank = (2, 1)
+
+    @classmethod
+    def params(cls, c):
+        n0, n1 = c.int('n0'), c.int('n1')
+        c.ctx.assume(z3.And(n0 >= 1, n1 >= 1))
+        F = c.arr2_flat('forecast', 'float64', (n0, n1))
+        return dict(forecast=F, observations=c.arr('observations', 'float64', n=F.flat_backing.n))
+
+    @classmethod
+    def requires(cls, c, forecast, observations):
+        return [to_z3(observations.shape[0]) == _size(forecast)]
+
+
+@contract
 class Brier1(_Brier):
     case = '1-d arrays'
     rank = 1
+
+
+for _cls in (Brier1, Brier2, Brier21):
+    _cls.accepts = _brier_accepts(_cls)
 
 
 # ------------------------------------------------------------------ C08
